@@ -141,3 +141,18 @@ def sprinkle_resets(cases, every=3):
         ops = list(c.ops[:i]) + [("r", 0)] + list(c.ops[i:])
         out.append(Case(c.cid + "_rs", ops, dump=c.dump, meta=dict(c.meta, reset_at=k)))
     return out
+
+
+class Rot:
+    """deterministic rotation through a list of discrete classes (stream styles, ...), per key: every class is used once every
+    len(list) picks, whatever the seed (the seed only moves the starting point). Random choice left classes out for some
+    (indicator, class) pairs under every seed — and a change that shows only on one class then went unreported under that seed."""
+
+    def __init__(self, r):
+        self.off = r.randrange(1 << 16)
+        self.k = {}
+
+    def pick(self, key, lst):
+        i = self.k.get(key, 0)
+        self.k[key] = i + 1
+        return lst[(i + self.off) % len(lst)]
